@@ -59,7 +59,8 @@ class SynthModel(DiabaticModel_):
                 out[k] += c * X[l]
                 out[l] += c * X[k]
         for t, w in zip(self.T, self.w):
-            s = 1.0 / np.cosh(np.dot(w, X)) ** 2
+            with np.errstate(over="ignore"):
+                s = 1.0 / np.cosh(np.dot(w, X)) ** 2      # far out: cosh overflows to inf, the term is exactly 0
             for k in range(n):
                 out[k] += t * s * w[k]
         return out
